@@ -373,19 +373,11 @@ fn c02_k12_div_native_2by2() {
     kani::cover!(q.get_word(0) > 1 && !r.is_zero(), "inexact quotient > 1");
 }
 
-/// K12 early returns, FULL-width limbs: a dividend with fewer 64-bit words than the divisor gives quotient 0 and remainder == dividend with
-/// `return_remainder`, (0, 0) without it; a zero dividend gives (0, 0). Word counts (wn, wd) are a symbolic choice among
-/// (0,1) (0,4) (1,2) (2,3) (3,4) (1,4), announced through the self-checking `scripted_num_words` case split; every limb below the word
-/// count is a full symbolic u64. These are the cases in which the rounding-up decision of the amount functions rests on the remainder alone.
-// @verif prop=C02 tier=quick timeout=300
-#[kani::proof]
-#[kani::unwind(6)]
-#[kani::stub(::whirlpool::math::u256_math::U256Muldiv::num_words, scripted_num_words)]
-fn c02_k12_div_small_dividend() {
-    const CASES: [(usize, usize); 6] = [(0, 1), (0, 4), (1, 2), (2, 3), (3, 4), (1, 4)];
-    let c: usize = kani::any();
-    kani::assume(c < 6);
-    let (wn, wd) = CASES[c];
+/// K12 early returns, FULL-width limbs: a dividend with `wn` 64-bit words and a divisor with `wd > wn` words (word counts concrete per harness,
+/// announced through the self-checking `scripted_num_words` case split; every limb below the word count a full symbolic u64, top limb non-zero)
+/// gives quotient 0 and remainder == dividend with `return_remainder`, (0, 0) without it; a zero dividend gives (0, 0).
+/// These are the cases in which the rounding-up decision of the amount functions rests on the remainder alone.
+fn small_dividend_case(wn: usize, wd: usize) {
     let mut n = U256Muldiv { items: [0; 4] };
     let mut d = U256Muldiv { items: [0; 4] };
     let mut i = 0;
@@ -405,8 +397,43 @@ fn c02_k12_div_small_dividend() {
     } else {
         assert!(r.is_zero());
     }
-    kani::cover!(want_rem && wn == 2 && wd == 3, "2-word dividend, 3-word divisor, remainder requested");
-    kani::cover!(wn == 0, "zero dividend");
+    kani::cover!(want_rem, "remainder requested");
+}
+
+/// zero dividend, 4-word divisor
+// @verif prop=C02 tier=quick timeout=300
+#[kani::proof]
+#[kani::unwind(6)]
+#[kani::stub(::whirlpool::math::u256_math::U256Muldiv::num_words, scripted_num_words)]
+fn c02_k12_div_small_dividend_0by4() {
+    small_dividend_case(0, 4)
+}
+
+/// 1-word dividend, 2-word divisor
+// @verif prop=C02 tier=quick timeout=300
+#[kani::proof]
+#[kani::unwind(6)]
+#[kani::stub(::whirlpool::math::u256_math::U256Muldiv::num_words, scripted_num_words)]
+fn c02_k12_div_small_dividend_1by2() {
+    small_dividend_case(1, 2)
+}
+
+/// 2-word dividend, 3-word divisor (the shape of L*dp*2^64 / (p0*p1) for prices around 1.0 and small L*dp)
+// @verif prop=C02 tier=quick timeout=300
+#[kani::proof]
+#[kani::unwind(6)]
+#[kani::stub(::whirlpool::math::u256_math::U256Muldiv::num_words, scripted_num_words)]
+fn c02_k12_div_small_dividend_2by3() {
+    small_dividend_case(2, 3)
+}
+
+/// 3-word dividend, 4-word divisor
+// @verif prop=C02 tier=quick timeout=300
+#[kani::proof]
+#[kani::unwind(6)]
+#[kani::stub(::whirlpool::math::u256_math::U256Muldiv::num_words, scripted_num_words)]
+fn c02_k12_div_small_dividend_3by4() {
+    small_dividend_case(3, 4)
 }
 
 /// K12a smoke (native-u128 path of `div`, 2-word ÷ 1-word)
